@@ -55,6 +55,7 @@ EmitSvg == PrintT(<<"EMIT", ToJson([
            sd |-> IF sh.name = "trimer" THEN sh.d ELSE 0,
            U |-> U, D |-> D, ax |-> ax, bx |-> bx, by |-> by, sx |-> sx, sy |-> sy,
            c |-> C, s |-> S, h |-> Hh, n |-> N, uses |-> SvgUses,
+           multi |-> IF Redescribable THEN 1 ELSE 0, sites |-> AsSites,
            cells |-> { <<n, m, D * (n * ax + m * bx), D * m * by>> : n \in -1..1, m \in -1..1 } ])>>)
 
 \* placements only (cheap): used where the overlap verdict is not needed
